@@ -1506,7 +1506,7 @@ Section IntegratorProofs.
       induction cs as [|c cs IH]; intros s nleft acc HX; cbn [ask_loop].
       - destruct (nleft =? 0); [exact HX|]. destruct (_ && _); exact HX.
       - destruct (nleft =? 0); [exact HX|]. destruct (_ && _); [exact HX|].
-        pose proof (XL_fill_stack c HX) as H1.
+        pose proof (@XL_fill_stack s c HX) as H1.
         destruct (fsF s c) as [s1 e]. cbn [fst] in H1.
         destruct e; try exact H1. unfold pop_from_stack. apply IH.
         eapply XL_same; [| | | |exact H1]; reflexivity.
@@ -1547,7 +1547,7 @@ Section IntegratorProofs.
     Proof.
       intros s Hh Hnb. apply rejects_foreign; [exact Hh|].
       destruct (xmap_mem eqb x (xmap s)) eqn:E; [|reflexivity].
-      exfalso. apply Hnb. destruct (XL_run h (XL_init lo hi maxiv)) as [H1 _]. apply H1. exact E.
+      exfalso. apply Hnb. destruct (@XL_run h _ (XL_init lo hi maxiv)) as [H1 _]. apply H1. exact E.
     Qed.
 
   End Foreign.
